@@ -2,7 +2,7 @@
 from __future__ import annotations
 import ast
 from ..api import A, spec, call, call_ref
-from ..terms import Evaluator, Poly, Rec, Cond, Opq, Comp, tkey, paths_of, term_equal, has_opaque, same, compare_terms
+from ..terms import Evaluator, Poly, Rec, Cond, Opq, Comp, tkey, paths_of, term_equal, has_opaque, same, compare_terms, compare_comps
 from ..prog import params_of
 from ..report import AnalysisError
 
@@ -20,9 +20,18 @@ def spec_env(prog, ev, extra=None):
     return env, m
 
 
+def _evaluator(prog):
+    """`network` is an atom whose is_zero_node test is inlined (so that `n == network.node_zero_label` and `network.is_zero_node(n)` are one term)"""
+    ev = Evaluator(prog)
+    nm = prog.mod('Network.network'); c = nm.defs.get('Network')
+    mem = prog.find_member(nm, c, 'is_zero_node') if isinstance(c, ast.ClassDef) else None
+    if mem and isinstance(mem[1], ast.FunctionDef): ev.atom_methods[('network', 'is_zero_node')] = (mem[0], mem[1])
+    return ev
+
+
 def eval_tf(prog, name, args):
     f = prog.func(NT, name)
-    ev = Evaluator(prog)
+    ev = _evaluator(prog)
     t = call(ev, f, args)
     return f, ev, t
 
@@ -37,11 +46,11 @@ def rule_zeroing(rep, prog, rid='R04.zeroing'):
         branches = ev.getattr(A('network'), 'branches', f.mod, 0)
         b = ev.elem_of(branches, 0)
         env, m = spec_env(prog, ev, {'b': b})
-        sp_elt = spec(ev, f"Branch(b.node1, b.node2, {ctor}(b.element.name, b.element.{imm})) if (b.element not in keep and abs(b.element.{src}) > 0) else b", env, m)
-        if not (isinstance(br, Comp) and len(br.gens) == 1 and term_equal(br.gens[0][0], branches) and not br.gens[0][1]):
-            rep.ob(rid, fname, None if not isinstance(br, Comp) else False, f'branches is not a filter-free pass over network.branches: {br!r:.160}', f.site); continue
-        c = compare_terms(br.elt, sp_elt)
-        rep.ob(rid, fname, c, f"each branch -> {br.elt!r:.260}", f.site, lhs=br.elt, rhs=sp_elt)
+        sp = spec(ev, f"[Branch(b.node1, b.node2, {ctor}(b.element.name, b.element.{imm})) if (b.element not in keep and abs(b.element.{src}) > 0) else b for b in network.branches]", env, m)
+        if not isinstance(br, Comp):
+            rep.ob(rid, fname, None, f'branches is not one pass over network.branches: {br!r:.160}', f.site); continue
+        c = compare_comps(br, sp)
+        rep.ob(rid, fname, c, f"each branch -> {br.elt!r:.260}" + (f' if {br.gens[0][1]!r:.100}' if br.gens and br.gens[0][1] else ''), f.site, lhs=br, rhs=sp)
         z = t.f.get('node_zero_label')
         rep.ob(rid, fname + ':reference', True if term_equal(z, ev.getattr(A('network'), 'node_zero_label', f.mod, 0)) else (None if has_opaque(z) else False),
                f'node_zero_label = {z!r}', f.site)
@@ -79,6 +88,7 @@ def rule_thread(rep, prog, rid='R16.thread'):
         if not isinstance(d, ast.FunctionDef): continue
         pos = params_of(d)[0]
         if not pos or pos[0] != 'network': continue
+        if name.startswith('_') and not (d.returns is not None and 'Network' in ast.unparse(d.returns)): continue      # private helper that is not itself a transformer
         n += 1
         args = [A(p) for p in pos]
         f, ev, t = eval_tf(prog, name, args)
@@ -100,8 +110,8 @@ def rule_filters(rep, prog, rid='R16.filter'):
     env, m = spec_env(prog, ev, {'b': b})
     sp = spec(ev, "[b for b in network.branches if not (b.element.I == 0 and b.element.Y == 0)]", env, m)
     br = t.f.get('branches') if isinstance(t, Rec) else None
-    ok = isinstance(br, Comp) and term_equal(br, sp)
-    rep.ob(rid, 'remove_open_circuit_elements', True if ok else (None if br is None or has_opaque(br) else False),
+    ok = compare_comps(br, sp) if isinstance(br, Comp) else None
+    rep.ob(rid, 'remove_open_circuit_elements', ok,
            f'branches = {br!r:.200}', f.site, lhs=br, rhs=sp)
     # remove_element: copy of the branch list minus exactly network[element]
     f, ev, t = eval_tf(prog, 'remove_element', [A('network'), A('element')])
@@ -126,7 +136,7 @@ def rule_filters(rep, prog, rid='R16.filter'):
 def rule_rename(rep, prog, rid='R16.rename'):
     """short contraction: per absorbed/retained pair every branch is rewritten terminal-wise, self-loops dropped; absorbed node is never the reference"""
     f = prog.func(NT, 'remove_short_circuit_elements')
-    ev = Evaluator(prog)
+    ev = _evaluator(prog)
     t = call(ev, f, [A('network'), A('keep')])
     site = f.site
     if not ev.loops:
@@ -140,19 +150,15 @@ def rule_rename(rep, prog, rid='R16.rename'):
     branches = ev.getattr(A('network'), 'branches', f.mod, 0)
     b0 = ev.elem_of(branches, 0)
     env, m = spec_env(prog, ev, {'b': b0})
-    sc_spec = spec(ev, "[b for b in network.branches if (b.element.V == 0 and b.element.Z == 0) and b.element not in keep]", env, m)
+    # (absorbed, retained) pairs of the shorts that are not exempt, in listing order; the absorbed node is never the reference
+    pair_src = ("[({p}) for vs in [b for b in network.branches if (b.element.V == 0 and b.element.Z == 0) and b.element not in keep]]")
+    forms = ["(vs.node1, vs.node2) if not network.is_zero_node(vs.node1) else (vs.node2, vs.node1)",
+             "(vs.node2, vs.node1) if not network.is_zero_node(vs.node2) else (vs.node1, vs.node2)"]
     pairs_ok = None; why = f'pairs = {it!r:.200}'
-    if isinstance(it, Comp) and len(it.gens) == 1:
-        src = it.gens[0][0]
-        sel_ok = term_equal(src, sc_spec)
-        vs = ev.elem_of(src, 0)
-        env2, _ = spec_env(prog, ev, {'vs': vs})
-        p1 = spec(ev, "(vs.node1, vs.node2) if not network.is_zero_node(vs.node1) else (vs.node2, vs.node1)", env2, m)
-        p2 = spec(ev, "(vs.node2, vs.node1) if not network.is_zero_node(vs.node2) else (vs.node1, vs.node2)", env2, m)
-        pair_ok = compare_terms(it.elt, p1) is True or compare_terms(it.elt, p2) is True
-        if sel_ok and pair_ok: pairs_ok = True; why = '(absorbed, retained) = (n1, n2) unless n1 is the reference; shorts = is_short_circuit and not exempt'
-        elif not has_opaque(it): pairs_ok = False
-        if not sel_ok: why = f'short selection = {src!r:.200}'
+    if isinstance(it, Comp):
+        res = [compare_comps(it, spec(ev, pair_src.format(p=p_), env, m)) for p_ in forms]
+        if any(r is True for r in res): pairs_ok = True; why = '(absorbed, retained) = (n1, n2) unless n1 is the reference; shorts = is_short_circuit and not exempt'
+        elif all(r is False for r in res): pairs_ok = False
     rep.ob(rid, 'contraction:pairs', pairs_ok, why, site, lhs=it)
     init = lp['init'].get(cname)
     rep.ob(rid, 'contraction:start', True if term_equal(init, branches) else (None if has_opaque(init) else False), f'starts from {init!r:.80}', site)
@@ -163,21 +169,10 @@ def rule_rename(rep, prog, rid='R16.rename'):
     step = ev.reeval_loop(lp, (an_t, rn_t)).get(cname)
     if not isinstance(step, Comp):
         rep.ob(rid, 'contraction:step', None, f'step = {step!r:.200}', site); return
-    # innermost element atom = element of the carried list
-    b = ev.elem_of(carried, 0)
-    E = step.elt
-    n1 = ev.getattr(E, 'node1', f.mod, 0); n2 = ev.getattr(E, 'node2', f.mod, 0); el = ev.getattr(E, 'element', f.mod, 0)
-    envs = {'b': b, 'an': an_t, 'rn': rn_t}
-    s1 = spec(ev, "rn if b.node1 == an else b.node1", envs, m)
-    s2 = spec(ev, "rn if b.node2 == an else b.node2", envs, m)
-    se = ev.getattr(b, 'element', f.mod, 0)
-    c1, c2 = compare_terms(n1, s1), compare_terms(n2, s2)
-    ce = True if term_equal(el, se) else (None if has_opaque(el) else False)
-    rep.ob(rid, 'contraction:node1', c1, f'node1 -> {n1!r:.160}', site, lhs=n1, rhs=s1)
-    rep.ob(rid, 'contraction:node2', c2, f'node2 -> {n2!r:.160}', site, lhs=n2, rhs=s2)
-    rep.ob(rid, 'contraction:element', ce, f'element -> {el!r:.120}', site)
-    # filter: exactly the self-loops are dropped
-    filt = [x for g in step.gens for x in g[1]]
-    fs = ev.fresh().compare(ast.NotEq(), s1, s2)
-    okf = len(filt) == 1 and compare_terms(filt[0], fs)
-    rep.ob(rid, 'contraction:self-loops', okf if len(filt) == 1 else (False if len(filt) > 1 else False), f'kept iff {filt!r:.200}', site)
+    # one contraction step rewrites both terminals of every branch and drops exactly the self-loops that result
+    envs = {'B': carried, 'an': an_t, 'rn': rn_t}
+    envs.update({nm: env[nm] for nm in ('Branch',)})
+    sp_step = spec(ev, "[Branch(rn if b.node1 == an else b.node1, rn if b.node2 == an else b.node2, b.element) for b in B "
+                       "if (rn if b.node1 == an else b.node1) != (rn if b.node2 == an else b.node2)]", envs, m)
+    c = compare_comps(step, sp_step)
+    rep.ob(rid, 'contraction:step', c, f'step = {step!r:.300}', site, lhs=step, rhs=sp_step)
